@@ -270,8 +270,9 @@ type recFile struct {
 // one side (base B or twin T)
 
 type wrEnv struct {
-	raw  avfs.VFS
-	idms []avfs.IdentityMgr
+	raw      avfs.VFS
+	idms     []avfs.IdentityMgr
+	failFunc failfs.FailFunc
 }
 
 func (e *wrEnv) info(path string) fs.FileInfo {
@@ -300,9 +301,8 @@ func (e *wrEnv) user(name string) avfs.UserReader {
 
 var wrTopNames = []string{"a", "b", "d1", "f1", "tmp1", "tmp2"}
 
-func wrSnapshot(v avfs.VFS, withTimes bool) string {
+func wrSnapshot(v avfs.VFS, admin avfs.UserReader, withTimes bool) string {
 	cur := v.User()
-	admin := v.Idm().AdminUser()
 	swapped := false
 	if !wrIsNil(admin) && !wrIsNil(cur) && cur.Uid() != admin.Uid() {
 		_ = v.SetUser(admin)
@@ -368,7 +368,7 @@ var wrWriteV = map[string]bool{"Chmod": true, "Chown": true, "Chtimes": true, "C
 	"Link": true, "Mkdir": true, "MkdirAll": true, "MkdirTemp": true, "Remove": true, "RemoveAll": true, "Rename": true,
 	"Symlink": true, "Truncate": true, "WriteFile": true}
 var wrSessionV = map[string]bool{"Chdir": true, "SetUMask": true, "SetUser": true, "SetUserByName": true, "SetIdm": true}
-var wrConfigV = map[string]bool{"Features": true, "HasFeature": true, "SetFeatures": true, "Idm": true, "Name": true, "Type": true,
+var wrConfigV = map[string]bool{"SetFailFunc": true, "Features": true, "HasFeature": true, "SetFeatures": true, "Idm": true, "Name": true, "Type": true,
 	"OSType": true}
 var wrWriteF = map[string]bool{"Chmod": true, "Chown": true, "Truncate": true, "Write": true, "WriteAt": true, "WriteString": true}
 var wrSessionF = map[string]bool{"Sync": true, "Chdir": true}
@@ -434,6 +434,7 @@ type wrWorld struct {
 	failed         []string // ids that were failed during the current call
 	desync         bool
 	ntemp          int
+	adminB, adminT avfs.UserReader // the administrators the bases were created with (snapshots are taken as them)
 }
 
 func wrNewBase(kind string) avfs.VFS {
@@ -521,6 +522,7 @@ func wrNewWorld(kind, baseKind string, treeSeed uint64, plan string) *wrWorld {
 		}
 	}
 	w.B, w.T = wrNewBase(baseKind), wrNewBase(baseKind)
+	w.adminB, w.adminT = w.B.User(), w.T.User()
 	wrPopulate(w.B, treeSeed, baseKind)
 	wrPopulate(w.T, treeSeed, baseKind)
 	w.envB = &wrEnv{raw: w.B, idms: []avfs.IdentityMgr{memidm.New()}}
@@ -534,6 +536,7 @@ func wrNewWorld(kind, baseKind string, treeSeed uint64, plan string) *wrWorld {
 	case "failfs":
 		f := failfs.New(root)
 		_ = f.SetFailFunc(w.failFunc)
+		w.envB.failFunc = w.failFunc
 		W = f
 	}
 	w.objs[0] = &wrObj{w: W, t: w.T}
@@ -614,6 +617,12 @@ func wrExec(env *wrEnv, o any, file bool, m string, a []string) (wrAns, any, boo
 	if !ok {
 		return wrAns{val: "u", err: "S1", obj: -1}, nil, true
 	}
+	if m == "SetFailFunc" { // not part of avfs.VFS: re-installs the failure function of the run
+		if f, is := v.(*failfs.FailFS); is && env.failFunc != nil {
+			return wrAnsOf("u", f.SetFailFunc(env.failFunc), -1), nil, true
+		}
+		return wrAns{val: "u", err: "S2", obj: -1}, nil, true
+	}
 	return wrExecVFS(env, v, m, a)
 }
 
@@ -625,14 +634,14 @@ func (w *wrWorld) step(op wrOp, cover map[string]int) (string, string) {
 		return op.String(), "r=u!S1@- c= x=ok"
 	}
 	class := wrClass(op.file, op.m, op.args)
-	before := wrSnapshot(w.B, true)
+	before := wrSnapshot(w.B, w.adminB, true)
 	w.rec.calls = nil
 	w.consults, w.failed = nil, nil
 	ans, obj, ok := wrExec(w.envB, o.w, op.file, op.m, op.args)
 	if !ok {
 		return op.String(), "BADOP"
 	}
-	after := wrSnapshot(w.B, true)
+	after := wrSnapshot(w.B, w.adminB, true)
 	key := "V." + op.m
 	if op.file {
 		key = "F." + op.m
@@ -712,7 +721,7 @@ func (w *wrWorld) step(op wrOp, cover map[string]int) (string, string) {
 		}
 	}
 	if w.kind == "failfs" && w.plan == "none" && !w.desync {
-		if wrSnapshot(w.B, false) != wrSnapshot(w.T, false) {
+		if wrSnapshot(w.B, w.adminB, false) != wrSnapshot(w.T, w.adminT, false) {
 			fails = append(fails, "base-differs-from-twin")
 			w.desync = true
 		}
@@ -998,6 +1007,7 @@ func wrSweepOps(baseKind string) []wrOp {
 		bind++
 		ops = append(ops, wrOp{obj: 0, m: m, bind: bind, args: wrAbsify(baseKind, false, m, a)})
 	}
+	ops = append(ops, wrOp{obj: 0, m: "SetFailFunc", bind: 99})
 	ops = append(ops, wrOp{obj: 0, m: "Open", bind: 1, args: []string{wrS("/tmp/f1")}}, wrOp{obj: 0, m: "Open", bind: 2, args: []string{wrS("/tmp")}},
 		wrOp{obj: 0, m: "Sub", bind: 3, args: []string{wrS("/tmp")}}, wrOp{obj: 0, m: "CreateTemp", bind: 4, args: []string{wrS("/tmp"), wrS("vt.*.z")}},
 		wrOp{obj: 0, m: "OpenFile", bind: 5, args: []string{wrS("/tmp/f1"), wrI(os.O_RDWR), "0"}},
@@ -1041,6 +1051,31 @@ func wrSweepOps(baseKind string) []wrOp {
 		ops = append(ops, wrOp{obj: fid, file: true, m: "Read", bind: bind + 4, args: []string{"4"}})
 	}
 	return ops
+}
+
+// the composites on existing entries (so that every inner primitive is reached and, under the
+// fault plans, failed once)
+func wrCompositeOps() []wrOp {
+	return []wrOp{
+		{obj: 0, m: "ReadFile", bind: 301, args: []string{wrS("/tmp/f1")}},
+		{obj: 0, m: "ReadDir", bind: 302, args: []string{wrS("/tmp")}},
+		{obj: 0, m: "Glob", bind: 303, args: []string{wrS("/tmp/*")}},
+		{obj: 0, m: "Glob", bind: 304, args: []string{wrS("/tmp/*/f2")}},
+		{obj: 0, m: "Glob", bind: 305, args: []string{wrS("/tmp/f1")}},
+		{obj: 0, m: "WriteFile", bind: 306, args: []string{wrS("/tmp/b"), wrS("DATA"), "420"}},
+		{obj: 0, m: "Create", bind: 307, args: []string{wrS("/tmp/a")}},
+		{obj: 307, file: true, m: "Write", bind: 308, args: []string{wrS("xy")}},
+		{obj: 307, file: true, m: "Close", bind: 309},
+		{obj: 0, m: "MkdirTemp", bind: 310, args: []string{wrS("/tmp"), wrS("vt.*.z")}},
+		{obj: 0, m: "MkdirTemp", bind: 311, args: []string{wrS("/tmp/nope"), wrS("vt.*.z")}},
+		{obj: 0, m: "CreateTemp", bind: 312, args: []string{wrS("/tmp/d1"), wrS("vt.*.z")}},
+		{obj: 312, file: true, m: "Write", bind: 313, args: []string{wrS("T")}},
+		{obj: 312, file: true, m: "Close", bind: 314},
+		{obj: 0, m: "ReadFile", bind: 315, args: []string{wrS("/tmp/b")}},
+		{obj: 0, m: "Sub", bind: 316, args: []string{wrS("/tmp")}},
+		{obj: 316, m: "WriteFile", bind: 317, args: []string{wrS("/f2"), wrS("S"), "420"}},
+		{obj: 316, m: "ReadFile", bind: 318, args: []string{wrS("/f2")}},
+	}
 }
 
 // wrFocusOps: a history concentrating on one method (V.Name / F.Name).
@@ -1242,7 +1277,7 @@ func runWrap(cfg config, kind string) {
 	}
 	for _, baseKind := range []string{"mem", "orefa"} {
 		// systematic histories first
-		for _, ops := range [][]wrOp{wrSweepOps(baseKind), wrFlagSweepOps()} {
+		for _, ops := range [][]wrOp{wrSweepOps(baseKind), wrFlagSweepOps(), wrCompositeOps()} {
 			rr, _ := wrRunHistory(kind, baseKind, 1, "none", ops, nil, 0, cover)
 			emit(rr)
 			o.count("history:systematic")
